@@ -199,6 +199,11 @@ def check_c14(pid, tier, t0, replay_key):
     findings += f
     obl += o
     st.update(s4)
+    f, o, s5, st5 = e5.rule_p5(P)
+    findings += f
+    obl += o
+    samples += s5
+    st.update(st5)
     common.check_floors(pid, st, tables)
     if tier == "thorough":
         st["selftest"] = run_selftest(pid)
@@ -208,7 +213,9 @@ def check_c14(pid, tier, t0, replay_key):
         "fragment) builds its name from its own literal namespace (directory / prefix / suffix set distinct from every other parametric arm); "
         "(P2) no format placeholder with a precision inside the paths modules (a rounded coordinate in a file name merges distinct ids - the "
         "{:.2} defect fixed in f12776d); (P3) serde skip attributes on fields of types reachable from Persistable impls equal the documented set; "
-        "(P4) Persistable::read / PersistentStorage::reader are called only on the restore path of ContextItem/ContextMap::get after try_get. "
+        "(P4) Persistable::read / PersistentStorage::reader are called only on the restore path of ContextItem/ContextMap::get after try_get; "
+        "(P5) every metacharacter string_to_filename itself introduces ('%' escapes, '^' case suffix) is classified reserved by is_reserved_char, a "
+        "necessary condition for the glyph-name encoding to be injective. "
         "NOT decided: byte-identical font with and without --emit-ir, value equality after read-back, injectivity of string_to_filename for glyph "
         "names that differ only by case or contain reserved characters, absence of collision between the literal prefix of kerning-instance files and "
         "literal file names (value level).")
